@@ -23,14 +23,21 @@ def main():
         d = tempfile.mkdtemp(prefix="mut-", dir="/var/tmp")
         try:
             shutil.copytree(os.path.join(REPO, "src"), os.path.join(d, "src"))
-            p = os.path.join(d, m["file"])
-            s = open(p).read()
-            cnt = s.count(m["old"])
-            if cnt != m.get("count", 1):
-                results.append((m["name"], "PATCH-MISMATCH (%d occurrences)" % cnt, 0))
+            edits = m.get("edits") or [m]
+            bad = None
+            for e in edits:
+                p = os.path.join(d, e["file"])
+                s = open(p).read()
+                cnt = s.count(e["old"])
+                if cnt != e.get("count", 1):
+                    bad = cnt
+                    break
+                s = s.replace(e["old"], e["new"])
+                open(p, "w").write(s)
+            if bad is not None:
+                results.append((m["name"], "PATCH-MISMATCH (%d occurrences)" % bad, 0))
+                print("%-40s PATCH-MISMATCH (%d occurrences)" % (m["name"], bad))
                 continue
-            s = s.replace(m["old"], m["new"])
-            open(p, "w").write(s)
             env = dict(os.environ, VERIF_REPO=d)
             t0 = time.time()
             cmd = [os.path.join(V, "check"), pid, "--tier", "quick", "--no-evidence"]
